@@ -285,6 +285,9 @@ def run_servers(wd, scs):
     defs, terms, steps = [], [], []
     for i, (sc, tr) in enumerate(zip(scs, trs)):
         if "snaps" not in tr:
+            if isinstance(tr, dict) and "panic" in tr:
+                raise ImplementationPanic(tr["panic"], sc, "setting up server scenario %d (datasets loaded, AppState::%s)"
+                                          % (i, "single" if str(sc.get("start", "")).startswith("single") else "create"))
             raise RuntimeError("harness-level failure on server scenario %d: %s" % (i, str(tr)[:500]))
         d, t, s = server_steps(sc, tr, i)
         defs.append(d)
